@@ -284,6 +284,95 @@ func gateOne(b *model.Behaviour, k int, job *gateJob) (parked bool, blocked bool
 	return true, blocked, g.checkAll(k)
 }
 
+// parkWriterOne: the other direction - the WRITER is stopped at the yield point between the last change it
+// puts into the batch and the commit (cold caches, default flush threshold: nothing is on disk yet), every key
+// of the still-latest version is read, the writer commits, and then every version is read again. A reader that
+// runs in that window must not leave anything behind that outlives the commit (e.g. a cached index entry of a
+// key the commit removes).
+func parkWriterOne(b *model.Behaviour, k int, job *gateJob) (reached bool, msg string) {
+	g := &gateState{gate: exec.NewGateDB(dbm.NewMemDB()), pal: palette.New("single", k, job.PalSeed), cache: job.Cache, iv: b.Steps[0].IV, vers: map[int64]*model.Tree{}}
+	if err := g.open(); err != nil {
+		return false, "open: " + err.Error()
+	}
+	for x := 1; x < job.Step; x++ {
+		if err := g.apply(b.Steps[x]); err != nil {
+			return false, fmt.Sprintf("step %d (sequential): %v", x, err)
+		}
+	}
+	pend := g.pend
+	if err := g.open(); err != nil {
+		return false, "reopen: " + err.Error()
+	}
+	for _, s := range pend {
+		g.write(s)
+	}
+	last := g.last
+	if last == 0 || g.vers[last] == nil {
+		return false, ""
+	}
+	wants := make([][]byte, k+1)
+	for kk := 1; kk <= k; kk++ {
+		wants[kk] = g.want(last, kk)
+	}
+	at := make(chan struct{})
+	resume := make(chan struct{})
+	var once sync.Once
+	iavl.VerifYield = func(p string) {
+		if p == "save:before-commit" {
+			once.Do(func() {
+				at <- struct{}{}
+				<-resume
+			})
+		}
+	}
+	defer func() { iavl.VerifYield = nil }()
+	wdone := make(chan error, 1)
+	go func() {
+		defer func() {
+			if p := recover(); p != nil {
+				wdone <- fmt.Errorf("writer panicked: %v", p)
+			}
+		}()
+		wdone <- g.apply(b.Steps[job.Step])
+	}()
+	var werr error
+	select {
+	case <-at:
+		reached = true
+	case werr = <-wdone:
+		if werr != nil {
+			return false, werr.Error()
+		}
+		return false, g.checkAll(k)
+	case <-time.After(120 * time.Second):
+		return false, "the writer neither reached the yield point before its commit nor returned within 120s"
+	}
+	it, err := g.tree.GetImmutable(last)
+	if err != nil {
+		msg = fmt.Sprintf("writer stopped before its commit: GetImmutable(%d) of the latest version: %v", last, err)
+	} else {
+		for kk := 1; kk <= k && msg == ""; kk++ {
+			got, err := it.Get(g.pal.Key(kk))
+			if err != nil || !bytes.Equal(got, wants[kk]) || (got == nil) != (wants[kk] == nil) {
+				msg = fmt.Sprintf("writer stopped before its commit: version %d Get(key %d) = %x (%v), committed value %x", last, kk, got, err, wants[kk])
+			}
+		}
+	}
+	close(resume)
+	select {
+	case werr = <-wdone:
+	case <-time.After(120 * time.Second):
+		return true, "the writer did not return within 120s after it was resumed"
+	}
+	if werr != nil {
+		return true, werr.Error()
+	}
+	if msg != "" {
+		return true, msg
+	}
+	return true, g.checkAll(k)
+}
+
 // storageGateReplay enumerates (writer step, reader, storage read, before/after, cold/warm).
 func storageGateReplay(id, tier string, seed int64, ev *Evidence) ([]string, error) {
 	k := 4
@@ -363,6 +452,34 @@ func storageGateReplay(id, tier string, seed int64, ev *Evidence) ([]string, err
 		}(bi, b)
 	}
 	wg.Wait()
+	// second phase, one at a time (the yield hook of the library is one package-level variable): the writer is
+	// stopped before its commit while the still-latest version is read with cold caches
+	writerParks := 0
+	for bi, b := range behs {
+		dirty := false
+		for i := 1; i < len(b.Steps); i++ {
+			s := b.Steps[i]
+			if s.Op == "save" && !s.Ret.Err && !s.Ret.Noop && dirty && b.Steps[i-1].Latest != 0 {
+				job := gateJob{Property: id, Kind: "gate", Behaviour: json.RawMessage(b.Raw), Summary: b.Summary(), Step: i, Reader: "parkwriter", Version: b.Steps[i-1].Latest,
+					Cold: true, Cache: []int{0, 100}[i%2], PalSeed: seed}
+				reached, msg := parkWriterOne(b, k, &job)
+				out[bi].jobs++
+				if reached {
+					writerParks++
+				}
+				if msg != "" {
+					job.Msg = msg
+					out[bi].viols = append(out[bi].viols, job)
+				}
+			}
+			switch s.Op {
+			case "set", "rm":
+				dirty = true
+			case "save", "rollback", "reopen":
+				dirty = false
+			}
+		}
+	}
 	var violations []string
 	replayDir := filepath.Join(OutDir, "evidence", "replays")
 	jobs, parked, blocked := 0, 0, 0
@@ -386,6 +503,7 @@ func storageGateReplay(id, tier string, seed int64, ev *Evidence) ([]string, err
 			}
 		}
 	}
+	ev.Coverage["writer_parked_before_commit"] = fmt.Sprintf("%d commits stopped at the yield point before the batch is written (cold caches), the latest version read in that window and every version afterwards", writerParks)
 	ev.Coverage["storage_gate_schedules"] = fmt.Sprintf("%d behaviours, %d schedules tried, %d with the reader parked inside a storage read while the writer ran a whole commit/deletion (%d of them: the writer could not proceed because the library holds a lock across that read)", len(behs), jobs, parked, blocked)
 	return violations, nil
 }
@@ -429,7 +547,12 @@ func ReplayGate(path string) (bool, int) {
 		fmt.Println("INCONCLUSIVE:", err)
 		return true, 2
 	}
-	_, _, msg := gateOne(b, 4, &j)
+	var msg string
+	if j.Reader == "parkwriter" {
+		_, msg = parkWriterOne(b, 4, &j)
+	} else {
+		_, _, msg = gateOne(b, 4, &j)
+	}
 	if msg != "" {
 		fmt.Println(msg)
 		fmt.Printf("VIOLATION property=%s replay=%s\n", j.Property, path)
